@@ -164,6 +164,9 @@ type Runner[S any] struct {
 	Exec func(script S, rep *Report) error
 	// MaxSamples is the number of sample scripts kept for evidence (default 3).
 	MaxSamples int
+	// ReplayRepeat is how often a committed replay is executed (default once); checks
+	// whose outcome depends on the goroutine schedule set it above one.
+	ReplayRepeat int
 
 	st     stats
 	hashes map[uint64]struct{}
@@ -352,10 +355,16 @@ func (r *Runner[S]) replayFiles(t *testing.T, files []string) bool {
 		if rf.Name != "" && rf.Name != r.Name {
 			continue
 		}
-		r.st.Replayed++
 		s := rf.Script
 		r.last = &s
-		if v := r.runOne(s); v != nil {
+		var v *Violation
+		// schedule-dependent checks re-run a committed script several times: one execution
+		// samples one interleaving
+		for n := 0; n < max(1, r.ReplayRepeat) && v == nil; n++ {
+			r.st.Replayed++
+			v = r.runOne(s)
+		}
+		if v != nil {
 			r.lastV = v
 			r.st.Violations++
 			r.st.ViolationMsg = v.Msg
